@@ -82,7 +82,15 @@ func expected(res *prog.Result, rb *prog.ReadBack, mask bool) (qs []pdf.Referenc
 	if len(refs) > 0 {
 		r0 := refs[0]
 		add(pdf.NewReference(r0.Number(), r0.Generation()+1))
-		add(pdf.NewReference(refs[len(refs)-1].Number()+40, 0))
+		// a number nobody uses: beyond every user reference and every object the writer
+		// allocates itself (fewer than two per operation)
+		maxNum := uint32(0)
+		for _, r := range refs {
+			if r.Number() > maxNum {
+				maxNum = r.Number()
+			}
+		}
+		add(pdf.NewReference(maxNum+uint32(2*res.NOps)+50, 0))
 	}
 	return
 }
@@ -114,7 +122,7 @@ func main() {
 		return
 	}
 	e := common.New(5)
-	n := e.Pick(600, 12000)
+	n := e.Pick(450, 12000)
 	for i := 0; i < n; i++ {
 		id := fmt.Sprintf("f%d", i)
 		k := i
@@ -134,13 +142,28 @@ func main() {
 		switch r := e.Rand.IntN(40); {
 		case r < 2 && i%5 == 0:
 			plan.Sparse = true
-			plan.SparseHigh = e.Rand.IntN(3) == 0
+			plan.SparseHigh = e.Thorough && e.Rand.IntN(3) == 0
 		case r < 4:
 			plan.ZeroCompressed = true
 		}
 		if i < 4 {
 			cfg = prog.Config{VIdx: 5 + i%4, Seek: i%2 == 0}
 			plan = prog.Plan{Sparse: true, SparseHigh: i < 2, MaxOps: 1 + i%2}
+		}
+		if i >= 4 && i < 4+len(prog.BatchSizes)+3 {
+			// every batch size in a plain program with several WriteCompressed calls, three of them
+			// also after a high sparse object number
+			j := i - 4
+			cfg.VIdx = 5 + j%4
+			cfg.HR = false
+			plan = prog.Plan{Batch: prog.BatchSizes[j%len(prog.BatchSizes)], MaxOps: 4}
+			if j >= len(prog.BatchSizes) {
+				plan.Batch = []int{33, 101, 257}[j-len(prog.BatchSizes)]
+				plan.Sparse, plan.SparseHigh = true, true
+				if plan.Batch == 1000 {
+					plan.Batch = 300
+				}
+			}
 		}
 		res := prog.Run(e.Rand, cfg, plan)
 		if res.ErrIdx != -1 || res.File == nil {
@@ -219,9 +242,20 @@ func oracle(path string) {
 		id := fs[0]
 		data := common.UnHex(fs[1])
 		var orc [][2][]byte
+		maxNum := uint32(400)
+		for _, l := range expect[id] {
+			parts := strings.Split(strings.Fields(l)[0], ".")
+			if len(parts) == 3 {
+				var n uint32
+				fmt.Sscan(parts[1], &n)
+				if n+50 > maxNum && n < 100000 {
+					maxNum = n + 50
+				}
+			}
+		}
 		// other filters: go-pdf's decoders, through the real Reader
 		if r, err := pdf.NewReader(newBytesReader(data), int64(len(data)), nil); err == nil {
-			orc = append(orc, rawStreams(r, data)...)
+			orc = append(orc, rawStreams(r, data, maxNum)...)
 		}
 		orc = append(orc, prog.ZlibOracle(data)...)
 		var qs []pdf.Reference
